@@ -1931,6 +1931,7 @@ void caseLapRandom(vrt::Case& c)
   vrt::describe("lap-random:" + cls, string("lap ") + str(n) + "x" + str(n) + " " + fn[flavour] + " vectors " + str(vecState));
   vrt::cover("lap:n=" + str(n) + ":" + fn[flavour]);
   vrt::cover("lap:n=" + str(n) + ":vectors" + str(vecState));
+  vrt::note("cost=" + dumpD(d));
   for (int kind = 0; kind < 3; ++kind) lapCheck<double>(d, kind, vecState, realCosts, cls, fn[flavour]);
   if (!realCosts)
   {
@@ -1945,26 +1946,26 @@ int main(int argc, char** argv)
 {
   const size_t M3 = 512 * 3 * NPRE;
   vector<vrt::Group> groups = {
-    { "mult", M3 + 600, M3 + 20000, caseMult, 600, false },
-    { "mult-diag", M3 + 600, M3 + 20000, caseMultDiag, 600, false },
-    { "mult-tridiag", M3 + 800, M3 + 20000, caseMultTri, 600, false },
-    { "mult-complex", 2048 + 800, 2048 + 20000, caseMultComplex<false>, 900, false },
-    { "mult-complex-diag", 2048 + 1000, 2048 + 20000, caseMultComplex<true>, 900, false },
-    { "add", 576 + 1500, 576 + 30000, caseAdd, 600, false },
+    { "mult", M3 + 2000, M3 + 20000, caseMult, 600, false },
+    { "mult-diag", M3 + 2000, M3 + 20000, caseMultDiag, 600, false },
+    { "mult-tridiag", M3 + 2400, M3 + 20000, caseMultTri, 600, false },
+    { "mult-complex", 2048 + 2000, 2048 + 20000, caseMultComplex<false>, 900, false },
+    { "mult-complex-diag", 2048 + 2500, 2048 + 20000, caseMultComplex<true>, 900, false },
+    { "add", 576 + 4000, 576 + 30000, caseAdd, 600, false },
     { "scale", 64 * 3 * 6, 64 * 3 * 6 * 4, caseScale, 600, false },
     { "transpose-copy", 2 * 64 * 3 * NPRE, 2 * 64 * 3 * NPRE, caseTranspose, 600, true },
-    { "pow", 8 * 11 * 3 * NPRE + 300, 8 * 11 * 3 * NPRE + 5000, casePow, 600, false },
-    { "taylor", 8 * 7 * 3 * 4 + 300, 8 * 7 * 3 * 4 + 5000, caseTaylor, 600, false },
-    { "kronecker", 2304 + 1500, 2304 + 40000, caseKron, 900, false },
-    { "hadamard", 2304 + 1200, 2304 + 30000, caseHadamard, 600, false },
-    { "directsum", 4096 + 1000, 4096 + 30000, caseDirectSum, 600, false },
+    { "pow", 8 * 11 * 3 * NPRE + 1000, 8 * 11 * 3 * NPRE + 5000, casePow, 600, false },
+    { "taylor", 8 * 7 * 3 * 4 + 1000, 8 * 7 * 3 * 4 + 5000, caseTaylor, 600, false },
+    { "kronecker", 2304 + 4000, 2304 + 40000, caseKron, 900, false },
+    { "hadamard", 2304 + 3000, 2304 + 30000, caseHadamard, 600, false },
+    { "directsum", 4096 + 3000, 4096 + 30000, caseDirectSum, 600, false },
     { "covar", 64 * 2 * NPRE, 64 * 2 * NPRE * 8, caseCovar, 600, false },
     { "extrema", 1920, 1920 * 8, caseExtrema, 600, false },
     { "build", 64 * 3 * NPRE, 64 * 3 * NPRE * 4, caseBuild, 300, false },
     { "shift", 64 * 3 * NPRE, 64 * 3 * NPRE, caseShift, 300, false },
-    { "storage", 6000, 300000, caseStorage, 600, false },
+    { "storage", 20000, 300000, caseStorage, 600, false },
     { "lap-exhaustive", 3 + 81 + 625 + 19683, 3 + 81 + 625 + 19683 + 65536, caseLapExhaustive, 600, true },
-    { "lap-random", 8000, 400000, caseLapRandom, 600, false },
+    { "lap-random", 24000, 400000, caseLapRandom, 600, false },
   };
   vrt::Meta meta;
   meta.rule = "One group per routine family. Conformable cases enumerate every operand shape 0..7 per dimension (mult family: all 512 (m,k,n); unary/binary element-wise routines: all 64 shapes; "
